@@ -734,6 +734,12 @@ func ProcessAlias(data []any, as string) []any {
 	}
 	slice := make([]any, len(data))
 	for i, j := range data {
+		// an inner array of a multi-dimensional source stays an array: it is
+		// its rows that go by the alias
+		if inner, ok := j.([]any); ok {
+			slice[i] = ProcessAlias(inner, as)
+			continue
+		}
 		slice[i] = Map{
 			as: j,
 		}
